@@ -287,7 +287,7 @@ func (x *c06) isPDTRoot(fn *ssa.Function, a ssa.Value, depth int) bool {
 	if _, ok := x.m.resultOf(a, x.activePDT, -1); ok {
 		return true
 	}
-	if b, ok := a.(*ssa.BinOp); ok && (b.Op == token.SHR || b.Op == token.SHL || b.Op == token.AND || b.Op == token.AND_NOT) {
+	if b, ok := a.(*ssa.BinOp); ok && (b.Op == token.SHR || b.Op == token.SHL || b.Op == token.AND || b.Op == token.AND_NOT || b.Op == token.QUO || b.Op == token.MUL) {
 		// shifted, or masked with a constant (address <-> frame number)
 		if _, isC := b.Y.(*ssa.Const); isC || b.Op == token.SHR || b.Op == token.SHL {
 			return x.isPDTRoot(fn, b.X, depth+1)
@@ -591,10 +591,7 @@ func (x *c06) entryProvenance(entryLoad ssa.Value) {
 		lvl := paramNamed(fn, "pteLevel")
 		pteP := paramNamed(fn, "pte")
 		lastLevel := okL && lvl != nil && hasFact(facts, func(f Fact) bool {
-			return cmpMatch(f, token.EQL, func(v ssa.Value) bool { return stripConv(v) == ssa.Value(lvl) }, func(v ssa.Value) bool {
-				k, ok := constUint64(v)
-				return ok && k == levels-1
-			})
+			return eqConstFact(f, lvl, int64(levels)-1)
 		})
 		present := pteP != nil && hasFact(facts, func(f Fact) bool {
 			r, ok := predicateFact(m, f, x.hasFlags, x.flagPresent, true)
@@ -730,14 +727,44 @@ func (x *c06) recovery(g *IG, ret int) {
 			}
 			a := g.callArgs(n)
 			sz, ok := constUint64(a[2])
-			return isFaultAddr(a[0]) && isTmpAddr(a[1]) && ok && sz == x.pageSize
+			// (a merged page variable is taken as what it can be at the call)
+			tmpOK := isTmpAddr(a[1])
+			if !tmpOK && isIntegral(a[1].Type()) {
+				base := g.substAt(n)
+				zs := &Polyizer{Inline: true, Subst: func(v ssa.Value) ssa.Value {
+					if r := base(v); r != nil {
+						return r
+					}
+					if phi, ok := v.(*ssa.Phi); ok {
+						if cs := g.valueCasesAt(phi, n); len(cs) == 1 {
+							return cs[0].Val
+						}
+					}
+					return nil
+				}}
+				p := zs.Of(through(a[1]))
+				for _, want := range tmpAddrs {
+					if p.equal(want) {
+						tmpOK = true
+					}
+				}
+			}
+			return isFaultAddr(a[0]) && tmpOK && ok && sz == x.pageSize
 		}},
 		{"unmap of the temporary page", func(n int) bool {
 			if !m.callsTo(g.Ins[n], x.unmap) {
 				return false
 			}
-			_, ok := m.resultOf(g.callArgs(n)[0], x.mapTemp, 0)
-			return ok
+			if _, ok := m.resultOf(g.callArgs(n)[0], x.mapTemp, 0); ok {
+				return true
+			}
+			cases := g.valueCasesAt(g.callArgs(n)[0], n)
+			for _, vc := range cases {
+				if _, ok := m.resultOf(vc.Val, x.mapTemp, 0); !ok {
+					return false
+				}
+			}
+			return len(cases) > 0
 		}},
 		{"ClearFlags(FlagCopyOnWrite)", func(n int) bool {
 			_, a, ok := methodCall(m, g.Ins[n], x.clearFlags)
